@@ -449,7 +449,7 @@ func run(c *vf.Ctx) {
 	e := setup(c)
 	nCases := c.N(220, 1200)
 	batch := 600
-	sampleEvery := c.N(10, 25)
+	sampleEvery := c.N(8, 20)
 	var mu sync.Mutex
 	sampled := 0
 	confirmed := map[string]int{}
